@@ -27,6 +27,11 @@ DEFAULT_FEATURES = {
     "queue_ops": False,
     "flags": False,
     "pseudo": False,
+    "defer_root": False,              # deferring states only in the root machine
+    "blocking_root": False,           # terminate / interrupt states only in the root machine
+    "fixed_completion_guards": False, # guards of completion rows keep one value during a whole operation list
+    "single_completion_region": False,# completion rows in at most one region per machine (F12)
+    "unguarded_completion": False,    # completion rows carry no guard (F20)
 }
 
 PROFILES = {
@@ -41,6 +46,10 @@ PROFILES = {
     "all":   {"completion": True, "defer": True, "history": True, "blocking": True},
     "flags": {"flags": True, "max_depth": 2, "p_sub": 0.45},
     "events": {"base_events": True, "kleene": True, "nevents": 5},
+    "common": {"completion": True, "defer_root": True, "history": True, "p_sm_irows": 0.0, "p_state_irows": 0.0, "fixed_completion_guards": True,
+               "unguarded_completion": True,
+               "blocking_root": True, "flags": True, "max_regions": 2, "single_completion_region": True},
+    "copy":  {"history": True, "defer": True, "completion": True, "p_sub": 0.5, "pseudo": True, "max_depth": 1},
     "pseudo": {"pseudo": True, "history": True, "p_sub": 0.6, "max_depth": 1},
 }
 
@@ -81,7 +90,7 @@ class Gen:
                 if depth < f["max_depth"] and rng.random() < f["p_sub"]:
                     sub = self.gen_machine(depth + 1)
                 kind = "simple"
-                if sub is None and f["blocking"] and k > 0 and rng.random() < 0.2:
+                if sub is None and (f["blocking"] or (f["blocking_root"] and depth == 0)) and k > 0 and rng.random() < 0.2:
                     kind = "term" if rng.random() < 0.5 else ["intr"] + rng.sample(self.events, rng.randint(1, 2))
                 st = state(kind=kind, sub=sub, zone=z)
                 if f["flags"] and rng.random() < 0.4:
@@ -119,14 +128,18 @@ class Gen:
             irows = [self.mk_row(0, None, internal=True) for _ in range(rng.randint(1, 2))]
         if f["completion"]:
             for z, members in enumerate(zones):
+                if f["single_completion_region"] and z > 0:
+                    break
                 for a in members:
                     if states[a]["sub"] is None and states[a]["kind"] == "simple" and rng.random() < 0.25:
                         later = [b for b in members if b > a]
                         if later:
                             r = self.mk_row(a, rng.choice(later))
                             r["trig"] = "none"
+                            if f["unguarded_completion"]:
+                                r["guard"] = False
                             rows.insert(rng.randint(0, len(rows)), r)
-        if f["defer"]:
+        if f["defer"] or (f["defer_root"] and depth == 0):
             def trig_events(rs):
                 return {r["trig"][1] for r in rs if r["trig"] not in ("any", "none")}
             def machine_events(m):
@@ -241,9 +254,17 @@ class Gen:
             plan.append((rng.randint(0, 8), ("throw",)))
         return sorted(plan)
 
+    def completion_guard_ids(self, md):
+        return [r["id"] for _, m in walk(md["root"]) for r in all_rows(m) if r["guard"] and r["trig"] == "none"]
+
     def gen_ops(self, md, n):
         rng, f = self.rng, self.f
         gids = self.guard_ids(md)
+        if f["fixed_completion_guards"]:
+            cg = self.completion_guard_ids(md)
+            self._fixed = {g: (rng.random() < 0.6) for g in cg}
+        else:
+            self._fixed = {}
         ops = [("start", self.val(gids), [])]
         pay = 100
         for _ in range(n):
@@ -279,6 +300,48 @@ class Gen:
             ops.append(("process", rng.choice(self.events), pay, self.val(gids), self.gen_plan()))
         return ops
 
+    def gen_ops_copy(self, md, n, mode="copy", pending=True):
+        """histories with several machine objects: object 0 is driven for a while, then copied / assigned / moved /
+        saved+loaded into another object at a quiescent point (optionally with events pending in its queue), then both
+        are driven with different continuations"""
+        rng = self.rng
+        gids = self.guard_ids(md)
+        ops = [("start", self.val(gids), [])]
+        pay = 300
+        alive = [0]
+        def proc(k):
+            nonlocal pay
+            pay += 1
+            return ("on", k, ("process", rng.choice(self.events), pay, self.val(gids), []))
+        for _ in range(rng.randint(1, n // 2)):
+            ops.append(proc(0))
+        while len(ops) < n:
+            x = rng.random()
+            if x < 0.25 and len(alive) < 4:
+                src = rng.choice(alive)
+                if pending and rng.random() < 0.4:
+                    pay += 1
+                    ops.append(("on", src, ("enqueue", rng.choice(self.events), pay)))
+                dst = max(alive) + 1
+                if mode == "saveload":
+                    ops.append(("saveload", dst, src))
+                elif mode == "move" and rng.random() < 0.4:
+                    ops.append(("move", dst, src))
+                    # the moved-from object may only be assigned to (or destroyed) afterwards
+                    ops.append(("assign", src, dst))
+                else:
+                    ops.append(("copy", dst, src))
+                alive.append(dst)
+            elif x < 0.35 and len(alive) >= 2 and mode != "saveload":
+                a, b = rng.sample(alive, 2)
+                ops.append(("assign", a, b))
+            elif x < 0.45 and pending:
+                ops.append(("on", rng.choice(alive), ("drain", self.val(gids), [])))
+            else:
+                ops.append(proc(rng.choice(alive)))
+        return ops
+
     def val(self, gids):
         p = self.rng.choice([0.2, 0.5, 0.8])
-        return [g for g in gids if self.rng.random() < p]
+        fixed = getattr(self, "_fixed", {})
+        return [g for g in gids if (fixed[g] if g in fixed else self.rng.random() < p)]
